@@ -2,6 +2,7 @@ CONSTANTS
  NF = 4
  MaxOps = 5
  MaxComps = 2
+ VarKinds = {"", "var"}
  EmitFrom = 0
 INIT Init
 NEXT Next
